@@ -275,3 +275,54 @@ func toFiles(in []*chart.File) []*chartFile {
 	}
 	return out
 }
+
+// H15DirBytes ("loading the same content from a directory and from an archive gives
+// equal results") — for a file of 0..2 byte order marks followed by 0..taillen arbitrary
+// symbolic bytes (invalid UTF-8 included) the directory loader hands LoadFiles exactly
+// what the archive loader hands it for the same raw content: the raw bytes minus ONE
+// leading UTF-8 byte order mark (archive.go: bytes.TrimPrefix(b.Bytes(), utf8bom),
+// pinned on the archive side by H15RoundTrip), for a template and for a plain file
+// alike, whatever follows the mark. Runs the real LoadDir walk function and LoadFiles
+// on the model tree of H15Dir.
+func H15DirBytes() {
+	// 0..2 leading byte order marks (concrete) followed by 0..taillen arbitrary symbolic bytes
+	body := strings.Repeat("\xEF\xBB\xBF", ndIntRange("boms", 0, 2)) + ndString("tail", ndIntRange("tail.len", 0, vBound("taillen", 2)))
+	nodes := []dirNode{
+		{"Chart.yaml", false, "apiVersion: v2\nname: c\nversion: 0.1.0\n"},
+		{"files", true, ""},
+		{"files/x", false, body},
+		{"templates", true, ""},
+		{"templates/t.txt", false, body},
+	}
+	root := "/chartdir/c"
+	if ndNative() {
+		d, err := os.MkdirTemp("", "verif-dirbytes")
+		if err != nil {
+			vrDiverged("no temp dir")
+		}
+		defer os.RemoveAll(d)
+		root = d
+		os.MkdirAll(filepath.Join(root, "files"), 0o755)
+		os.MkdirAll(filepath.Join(root, "templates"), 0o755)
+		for _, n := range nodes {
+			if !n.dir {
+				os.WriteFile(filepath.Join(root, n.rel), []byte(n.data), 0o644)
+			}
+		}
+	} else {
+		dirRoot, dirNodes, dirIgnore, dirHasIgn = root, nodes, "", false
+	}
+	c, err := LoadDir(root)
+	vAssert("dirbytes/loads", err == nil && c != nil)
+	if err != nil || c == nil {
+		return
+	}
+	want := body
+	if len(body) >= 3 && body[0] == 0xEF && body[1] == 0xBB && body[2] == 0xBF {
+		want = body[3:]
+	}
+	vAssert("dirbytes/one-file-one-template", len(c.Files) == 1 && len(c.Templates) == 1)
+	vAssert("dirbytes/file-as-the-archive-loader-would-load-it", c.Files[0].Name == "files/x" && string(c.Files[0].Data) == want)
+	vAssert("dirbytes/template-as-the-archive-loader-would-load-it", c.Templates[0].Name == "templates/t.txt" && string(c.Templates[0].Data) == want)
+	vObservef("%x -> %x", body, c.Files[0].Data)
+}
